@@ -99,6 +99,11 @@ struct JSONUtils {
                     ++offset;
                     offset2 = offset;
                     ++offset2;
+
+                    if (offset >= length) {
+                        return 0;
+                    }
+
                     const Char_T ch = content[offset];
 
                     switch (ch) {
